@@ -22,7 +22,9 @@ EXPLANATION = (
     "attribute the literals are equal after bool/int/float normalisation; (checks) constants that an attribute is checked "
     "against agree; (reject-unknown) the Rust ONNX loader rejects a node with attributes its reader did not consume, whereas the "
     "converter only warns and drops them - so an attribute honoured by Rust but unknown to the converter is a violation; (narrowing) the ONNX loader's i64 -> i32 constant narrowing mentions both i32 bounds and the "
-    "converter clips with np.clip to the i32 range. Differences are violations unless listed in the reviewed exception table "
+    "converter's every astype(np.int32) follows a clip to the i32 range or widens; (const-dtypes) every constant element "
+    "type the converter accepts has an arm in the ONNX loader; (onnx-wire) the Rust ONNX parser accepts packed and unpacked "
+    "repeated scalars like the protobuf library the converter uses. Differences are violations unless listed in the reviewed exception table "
     "with the reason they are behaviour-neutral. Equality of the outputs of the two paths is NOT decided.")
 ASSUMPTIONS = ["attribute names are string literals at the accessor call sites on both sides (checked: a non-literal name is a violation)",
                "the .rten reader (rten_registry.rs) is a field-by-field copy of what the converter wrote (schema defaults are not compared)"]
